@@ -80,6 +80,35 @@ check("C12",
       "Lean 4 invariant proof over a session state machine + differential correspondence of real sessions + direct repeatability exploration",
       "DESIGN.md §4 C12")
 
+check("C06",
+      "The independent reader is a strict Lean parser written from docs/archive_format.rst (SevenZ.Spec: every count, "
+      "size, vector length, END marker, reserved bit; assignment of sub-streams to files), validated against 55 "
+      "third-party fixtures. Theorem level: the implementation's assignment cursor agrees with the format's assignment "
+      "on interleaved / zero-stream-folder layouts (kernel-evaluated); the header reader model is tied to archiveinfo.py "
+      "by the hdr stream incl. non-writer headers and mutations. Decided mostly by exploration: logical archives x 24 "
+      "layout features from an independent reference writer, validated by the Lean strict reader, then read by py7zr and "
+      "compared member by member; plus all decodable fixtures. Partial: the general refinement theorem reader-vs-spec "
+      "is not yet proved for all layouts.",
+      "Lean 4 strict reference parser + kernel-checked assignment examples + differential correspondence + layout exploration with an independent writer",
+      "DESIGN.md §4 C06")
+check("C07",
+      "Theorems (Lean): the Size field of the time and attribute properties equals the bytes that follow for every "
+      "definedness pattern; bit vectors have ceil(n/8) bytes; NUMBERs <= 9 bytes decodable by the spec decoder (C17). "
+      "Header.write is tied byte-for-byte to the model (hdr.w incl. partial vectors and zero-stream folders). Every "
+      "archive of generated write/append histories (every documented chain, +/-AES with non-ASCII password, raw/encoded/"
+      "encrypted header, dirs/empties/symlinks) is parsed by the Lean strict reader (counts, sizes, tiling) and decoded "
+      "with codec libraries + an independent 7zAES KDF; recovered members must equal what was written.",
+      "Lean 4 proofs of property-size exactness + byte-exact writer correspondence + independent strict reader (Lean) on explored histories",
+      "DESIGN.md §4 C07")
+check("C08",
+      "Theorems (Lean): re-serialised partially defined vectors are read back unchanged (all lengths/patterns); "
+      "assignment of base members is unchanged by an appended folder (kernel-evaluated shape incl. stream-less session). "
+      "Decided by exploration: histories w a a a over every chain, empty / dir-only sessions, password, header modes, "
+      "bases = py7zr archives, 11 third-party fixtures and 12 reference-writer layouts; after every session the member "
+      "map is read by py7zr AND by the independent reader and compared with all sessions' members in order.",
+      "Lean 4 proofs on the re-serialisation core + differential correspondence + history exploration with two independent readers",
+      "DESIGN.md §4 C08")
+
 ALL = ["C%02d" % i for i in range(1, 21)]
 REASON_PENDING = "not yet claimed in this revision: model/theorems/correspondence for it are still being built (see DESIGN.md §8.3 staging)"
 
